@@ -126,6 +126,22 @@ class FullCheck(BaseCheck):
         return {'delay': 0.0005}
 
     modes = [first_mode] + ['up'] * (n_eps - 1)
+    decoy_error = None
+    if rng.random() < 0.3:
+      # another service of the same process (same base service, a method of the same name with a
+      # different argument struct) has marshalled a call before this client does
+      try:
+        import io
+        from scales.message import MethodCallMessage
+        from scales.thrift.serializer import MessageSerializer
+        from vlib.gen.verifsvc import Ext2Service
+        classes.add('other-service-in-process')
+        MessageSerializer(Ext2Service.Iface).SerializeThriftCall(
+          MethodCallMessage(Ext2Service.Iface, 'extra', (7, 'decoy'), {}), io.BytesIO())
+      except ImportError:
+        pass
+      except Exception as e:  # noqa
+        decoy_error = e
     aperture = None
     if balancer == 'aperture' and n_eps > 1 and rng.random() < 0.5:
       # non-default aperture: wider minimum and frequent jitter rounds under traffic
@@ -354,6 +370,9 @@ class FullCheck(BaseCheck):
       if not a_ok or not q['consumed_all']:
         viol('reply:request-altered', 'server decoded %r for call %d which passed %s%r' % (
           q['call'], c, rec['method'], rec['args']), {})
+    if decoy_error is not None:
+      viol('reply:request-altered', 'a call of another service of this process (Ext2Service.extra(7, \'decoy\')) could '
+           'not be marshalled with its own argument struct: %r' % decoy_error, {'other_service': True})
     for s in w.servers:
       for bf in s.bad_frames:
         viol('wire:bad-frame', 'server could not decode what the client wrote: %r' % (bf,), {})
@@ -377,6 +396,18 @@ class FullCheck(BaseCheck):
                  {'balancer': balancer, 'sign': 'neg' if al < 0 else 'pos'}, {'raw': n.load})
     except ImportError:
       pass
+    # -------- C04 removal at full-stack quiescence: a member that left (and did not re-join)
+    # has had its channel closed, so no connection to it is still open from the client's side
+    if w.ss is not None and getattr(w.ss, 'pending', 0) == 0:
+      for s_ in w.servers:
+        if (s_.sim.host, s_.sim.port) in w.ss.truth:
+          continue
+        ob('removal:')
+        open_conns = [c.id for c in s_.sim.conns if not c.client_closed]
+        if open_conns:
+          viol('removal:connection-open-at-quiescence', 'member %s left the server set, all calls completed and '
+               '%.1fs passed, but %d connection(s) to it are still open on the client side' % (
+                 s_.ep, 2 * tmax + 1.0, len(open_conns)), {'balancer': balancer}, {'conns': open_conns[:5]})
     w.close()
     env.advance(0.5)
     ok_errs = ('GreenletExit',)
